@@ -61,6 +61,19 @@ impl fmt::Display for Scope {
     }
 }
 
+/// checks that the public keys written in parsed scopes are usable, so that the infallible
+/// conversion below cannot fail on text that parsed
+pub(crate) fn validate_parsed_scopes(
+    scopes: &[biscuit_parser::builder::Scope],
+) -> Result<(), error::Token> {
+    for scope in scopes {
+        if let biscuit_parser::builder::Scope::PublicKey(pk) = scope {
+            PublicKey::from_bytes(&pk.key, pk.algorithm.clone().into())?;
+        }
+    }
+    Ok(())
+}
+
 impl From<biscuit_parser::builder::Scope> for Scope {
     fn from(scope: biscuit_parser::builder::Scope) -> Self {
         match scope {
